@@ -6,6 +6,7 @@ CONSTANTS
   AnchorDepth = 10
   SimMode = FALSE
   Emit = FALSE
+  EmitLevel = 0
   HSet = {21, 22}
   FarEst = 45
   SchedSet = {21}
